@@ -26,6 +26,14 @@ use vh::{esc, fields, sq};
 
 static CASE_STARTED_MS: AtomicU64 = AtomicU64::new(0);
 static LAST_PANIC: Mutex<String> = Mutex::new(String::new());
+/// which parser of `parse_all` is running (reported by the watchdog: `HANG <stage>`)
+static STAGE: Mutex<&'static str> = Mutex::new("");
+
+fn stage(s: &'static str) {
+    if let Ok(mut g) = STAGE.lock() {
+        *g = s;
+    }
+}
 
 fn now_ms() -> u64 {
     std::time::SystemTime::now().duration_since(std::time::UNIX_EPOCH).map(|d| d.as_millis() as u64).unwrap_or(0)
@@ -302,32 +310,48 @@ fn cursors(line: &str) -> Vec<usize> {
 fn parse_all(shell: &vh::Sh, text: &str) -> String {
     let mut res = String::new();
     let opts = shell.parser_options();
+    stage("program");
     let prog = shell.parse_string(text.to_string());
     res.push_str(if prog.is_ok() { "P" } else { "p" });
+    stage("tokenizer");
     match brush_parser::tokenize_str(text) {
         Ok(toks) => {
             res.push('T');
             for t in toks.iter().take(200) {
                 let w = t.to_str();
+                stage("token:word");
                 let _ = brush_parser::word::parse(w, &opts);
+                stage("token:brace");
                 let _ = brush_parser::word::parse_brace_expansions(w, &opts);
+                stage("token:parameter");
                 let _ = brush_parser::word::parse_parameter(w, &opts);
+                stage("token:heredoc");
                 let _ = brush_parser::word::parse_heredoc(w, &opts);
+                stage("token:pattern");
                 let _ = brush_parser::pattern::pattern_to_regex_str(w, true);
                 let _ = brush_parser::pattern::pattern_to_regex_str(w, false);
+                stage("token:arithmetic");
                 let _ = brush_parser::arithmetic::parse(w);
+                stage("token:unquote");
                 let _ = brush_parser::unquote_str(w);
             }
         }
         Err(_) => res.push('t'),
     }
+    stage("text:word");
     let _ = brush_parser::word::parse(text, &opts);
+    stage("text:brace");
     let _ = brush_parser::word::parse_brace_expansions(text, &opts);
+    stage("text:pattern");
     let _ = brush_parser::pattern::pattern_to_regex_str(text, true);
+    stage("text:arithmetic");
     let _ = brush_parser::arithmetic::parse(text);
+    stage("text:prompt");
     let _ = brush_parser::prompt::parse(text);
+    stage("text:test");
     let ws: Vec<&str> = text.split_whitespace().collect();
     let _ = brush_parser::test_command::parse(&ws);
+    stage("");
     format!("OK {res}")
 }
 
@@ -350,7 +374,7 @@ fn main() {
         let t = CASE_STARTED_MS.load(Ordering::SeqCst);
         if t != 0 && now_ms().saturating_sub(t) > limit {
             // the stuck case gets its response line here; stdout is line-flushed by the main loop
-            println!("HANG");
+            println!("HANG {}", STAGE.lock().map(|g| *g).unwrap_or(""));
             let _ = std::io::stdout().flush();
             std::process::exit(3);
         }
@@ -373,6 +397,7 @@ fn main() {
             continue;
         }
         let _ = take_panic();
+        stage("");
         CASE_STARTED_MS.store(now_ms(), Ordering::SeqCst);
         let res = std::panic::catch_unwind(AssertUnwindSafe(|| match (f[0].as_str(), f.len()) {
             ("PARSE", 2) => parse_all(&cx.base, &f[1]),
